@@ -1,3 +1,5 @@
+//go:build verif_c12
+
 package main
 
 // C12 — opening is independent of the unzip/memory limits and cleans up its temp files.
